@@ -60,7 +60,7 @@ Section Json.
     unmarshal_to_item jr lay reg lsw acts actors links (FObj kvs) = Some i -> kind_or_nothing (kind_of_family f) i.
   Proof.
     intros Hin Ht. unfold unmarshal_to_item. destruct (keys_clean (FObj kvs)); [|discriminate].
-    unfold unmarshal_core. apply (json_kind_load n f 64 (FObj kvs) i Hin Ht).
+    unfold unmarshal_core. apply (json_kind_load n f json_dec_fuel (FObj kvs) i Hin Ht).
   Qed.
 
   Theorem json_kind_top n f b kvs i : In (n, f) names -> fj_parse b = Ok (FObj kvs) -> type_name_of (FObj kvs) = n ->
@@ -121,14 +121,14 @@ Section Json.
   (* a top-level array *)
   Theorem json_kind_top_array n f l its i : In (n, f) names ->
     unmarshal_to_item jr lay reg lsw acts actors links (FArr l) = Some (IItems false (Some its)) -> In i its ->
-    exists v, In v l /\ LOAD 64 v = Some i /\ i <> INil /\ (type_name_of v = n -> has_kind (kind_of_family f) i).
+    exists v, In v l /\ LOAD json_dec_fuel v = Some i /\ i <> INil /\ (type_name_of v = n -> has_kind (kind_of_family f) i).
   Proof.
     intros Hin. unfold unmarshal_to_item. destruct (keys_clean (FArr l)); [|discriminate].
-    unfold unmarshal_core, items_fn. destruct (items_go (LOAD 64) l []) as [acc|] eqn:E; [|discriminate].
+    unfold unmarshal_core, items_fn. destruct (items_go (LOAD json_dec_fuel) l []) as [acc|] eqn:E; [|discriminate].
     intro H. injection H as <-. intro Hi.
-    destruct (items_go_members (LOAD 64) l [] acc E i Hi) as [[]|(v & Hv & Hr & Hn)].
+    destruct (items_go_members (LOAD json_dec_fuel) l [] acc E i Hi) as [[]|(v & Hv & Hr & Hn)].
     exists v. repeat split; try assumption.
-    intro Ht. destruct (json_kind_load n f 64 v i Hin Ht Hr) as [->|Hk]; [congruence|exact Hk].
+    intro Ht. destruct (json_kind_load n f json_dec_fuel v i Hin Ht Hr) as [->|Hk]; [congruence|exact Hk].
   Qed.
 End Json.
 
